@@ -16,7 +16,7 @@ DOMAINS = {
     "match": {"letter": "M", "header_tokens": 6},
     "p01": {"letter": "P", "header_tokens": 4}, "p02": {"letter": "P", "header_tokens": 4}, "p05": {"letter": "P", "header_tokens": 4},
     "p04": {"letter": "P", "header_tokens": 4}, "p17": {"letter": "P", "header_tokens": 4},
-    "errstr": {"letter": "E", "header_tokens": 5}, "expr": {"letter": "X", "header_tokens": 4},
+    "errstr": {"letter": "E", "header_tokens": 5}, "buffmt": {"letter": "F", "header_tokens": 9}, "expr": {"letter": "X", "header_tokens": 4},
     "p06": {"letter": "P", "header_tokens": 4}, "p08": {"letter": "P8", "header_tokens": 4}, "p09": {"letter": "P9", "header_tokens": 4},
 }
 
@@ -126,6 +126,14 @@ PROPS["C19"] = {"module": "ScpiVerif.Props.C19", "domains": [{"name": "expr", "c
     "trusted_base": [KERNEL, CORR, PLATFORM, "Spec/ExprList.lean: list grammar over the decimal token specification"],
     "assumptions": ["Model/Expr.lean transcribes expression.c; integer values are strtol of the token text (Model/Prim.lean)"],
     "rule": "cases = (expression body, index, capacity); every body up to length 5 (quick) / 6 (thorough) over {1,7,-,.,:,',',!,@,space,a}, grammar-generated lists of up to 8 entries and 5 dimensions with occasional damage, indices 0..9, capacities 0..4, canaries after the value arrays; non-trivial = non-empty body"}
+PROPS["C15"] = {"module": "ScpiVerif.Props.C15", "domains": [{"name": "buffmt", "cfgs": ["A", "D"]}, {"name": "intfmt", "cfgs": ["A"]}], "clauses": ["C15.", "C14.write_beyond_buffer", "C14.nul_terminator", "C14.return_value"], "level": "proof",
+    "trusted_base": [KERNEL, CORR + " (exact-size heap buffers under ASan)", PLATFORM, "snprintf / strncpy / strncat / strnlen by their C specifications"],
+    "assumptions": ["Model/BufFmt.lean transcribes SCPI_NumberToStr, SCPI_FloatToStr/DoubleToStr, SCPI_dtostre's final copy and SCPI_ParamCopyText as bounded writers"],
+    "rule": "cases = (function, value, buffer length); buffer lengths 0..40 and lengths within +-3 of the text length, doubles of every kind (integers, powers of ten, random bit patterns, rounding boundaries, subnormals, non-finite), every unit of the table and every special-number tag, precisions 1..15; exact-size heap buffers; non-trivial = every case"}
+PROPS["C16"] = {"module": "ScpiVerif.Props.C16", "domains": [{"name": "buffmt", "cfgs": ["A", "D"]}], "clauses": ["C16."], "level": "proof",
+    "trusted_base": [KERNEL, CORR, PLATFORM, "printf build: snprintf(%g / %.15lg) of glibc is correctly rounded (trusted); own formatter: digit generation uses C double arithmetic (trusted IEEE-754)"],
+    "assumptions": ["Model/Dtostre.lean transcribes the string assembly of SCPI_dtostre; digit generation (scpi_ecvt) is corresponded, not proved"],
+    "rule": "cases as C15; judged against the exact rational value of the bit pattern: within half a unit (printf build) / one unit (own formatter) of the last requested significant digit"}
 PROPS["C01"] = _pprop("ScpiVerif.Props.C01", [{"name": "p01", "cfgs": ["A", "B", "C", "D"]}, {"name": "lexer", "cfgs": ["A"]}], ["C01."],
     "mutated messages (byte flips, deletions, insertions, syntax characters, truncation), input buffers of 2..200 bytes, queue capacities 1..4, random segmentation with over-long chunks and zero-length calls, in all four build configurations under ASan+UBSan with the buffer-tail poisoning hook")
 
@@ -154,7 +162,7 @@ _T["C20"] = ("Theorems text_intact_or_absent / empty_means_reusable / fits_means
 _T["C03"] = ("Theorems: for every pattern of the property's grammar that satisfies the side condition and every header over the header alphabet, the model of matchCommand accepts iff the header is in the pattern's short/long-form language, and reports the numeric suffixes in keyword order with the caller's default for omitted ones.",
             "Lean kernel + standard axioms; model tied to utils.c by pattern-directed differential testing; Spec/Pattern.lean is the reading of the property",
             "Lean 4 theorem (greedy walker = declarative language under the side condition) + differential correspondence")
-for _k in ("C02", "C06", "C08", "C09", "C05", "C01", "C04", "C17", "C18", "C19"):
+for _k in ("C02", "C06", "C08", "C09", "C05", "C01", "C04", "C17", "C18", "C19", "C15", "C16"):
     _T[_k] = ("(theorems in progress)", "Lean kernel + standard axioms; context model tied to parser.c by scripted differential testing", "Lean 4 theorems over the context model + differential correspondence")
 _T["C18"] = ("Theorems resultError_one_part / resultError_two_parts: for every 16-bit code, every description and every NUL-free text of any length and content, in the one-part (malloc) and two-part (static heap, wrapped) layouts, the model of SCPI_ResultError writes exactly response(code, description, text) of Spec/ErrorString.lean; response_shape: that response is the code, a comma and one 488.2 string whose unescaped content is the longest prefix of description;text that fits 255 escaped characters; escape_injective; description_total over the generated error list.",
             "Lean kernel + standard axioms; translator for LIST_OF_ERRORS and the 255 limit; model tied to parser.c/error.c by differential testing in three configurations (texts wrapped around the heap end included) and an independent reader of the response",
@@ -175,5 +183,5 @@ for _k, (_a, _b, _c) in _T.items():
     PROPS[_k]["level_text"], PROPS[_k]["level_note"], PROPS[_k]["technique"] = _a, _b, _c
 
 # properties whose theorem module is not complete yet are not claimed
-for _k in ("C02", "C08", "C09", "C05", "C04"):  # unclaimed
+for _k in ("C02", "C08", "C09", "C05", "C04", "C15", "C16"):  # unclaimed
     PROPS[_k]["unclaimed"] = True
